@@ -102,7 +102,7 @@ class Gen:
     def region(self, frameword):
         """returns (shape word, tokens, [expected dicts])"""
         rng = self.rng
-        shape = rng.choice(('circle', 'ellipse', 'box', 'annulus', 'polygon', 'line', 'point', 'text', 'annulus3', 'ellipse2', 'box2'))
+        shape = rng.choice(('circle', 'ellipse', 'box', 'annulus', 'polygon', 'line', 'point', 'text', 'annulus3', 'ellipse2', 'box2', 'ellipse3', 'box3'))
         if shape == 'circle':
             p, c = self.position(frameword)
             s, r = self.size(frameword)
@@ -122,6 +122,20 @@ class Gen:
                 return self.region(frameword)
             exp = [dict(kind='circle_annulus', center=c, inner_radius=ss[i][1], outer_radius=ss[i + 1][1]) for i in range(n - 1)]
             return 'annulus', p + [t[0] for t in ss], exp
+        if shape in ('ellipse3', 'box3'):
+            # three radius pairs: two consecutive annuli sharing the middle pair
+            p, c = self.position(frameword)
+            w = sorted([self.size(frameword) for _ in range(3)], key=lambda t: t[1])
+            h = sorted([self.size(frameword) for _ in range(3)], key=lambda t: t[1])
+            if any(abs(x[i][1] - x[i + 1][1]) < 1e-9 for x in (w, h) for i in range(2)):
+                return self.region(frameword)
+            t, ang = self.angle()
+            k = 2.0 if shape == 'ellipse3' else 1.0
+            kind = 'ellipse_annulus' if shape == 'ellipse3' else 'rectangle_annulus'
+            exp = [dict(kind=kind, center=c, inner_width=k * w[i][1], outer_width=k * w[i + 1][1], inner_height=k * h[i][1], outer_height=k * h[i + 1][1], angle=ang)
+                   for i in range(2)]
+            toks = p + [w[0][0], h[0][0], w[1][0], h[1][0], w[2][0], h[2][0], t]
+            return ('ellipse' if shape == 'ellipse3' else 'box'), toks, exp
         if shape in ('ellipse2', 'box2'):
             p, c = self.position(frameword)
             w = sorted([self.size(frameword) for _ in range(2)], key=lambda t: t[1])
@@ -207,7 +221,7 @@ def check_file(res, rng):
             include = iv            # per-region property overrides the sign
         text = None
         if shape == 'text' or rng.random() < 0.3:
-            text = rng.choice(('hello', 'two words', 'semi;colon', 'a=b'))
+            text = rng.choice(('hello', 'two words', 'semi;colon', 'a=b', 'NGC 1 (core)', 'f(x) = (a)'))
             d = rng.choice(('{}', '""', "''"))
             props.append(f'text={d[0]}{text}{d[1]}')
         color = glob.get('color')
